@@ -388,6 +388,30 @@ theorem after_success_backoff_restarts (H : Hash) (c : Cfg) (t : Table) (k : QKe
     simp only [beq_iff_eq] at hm
     simp [hk, hm] at hq
 
+/-- **A useful answer resets the audience that asked.** Whatever audience the
+recovering answer itself is filed under (shared, or a clamped ECS SCOPE that
+differs from the client's source prefix), after `ResponseWriter.WriteMsg`
+stored it the requesting audience `k.scope` has no exact state, no covering
+zone state and no retry generation left for the question, and its next
+failure starts again at the configured minimum. -/
+theorem useful_answer_resets_requesting_audience (H : Hash) (s : Store) (now : Int) (k : QKey)
+    (answerScoped : Bool) (hen : s.disabled = false) (hwf : isFqdn (canonicalName k.name) = true)
+    (now' : Int) (p w : Nat) :
+    lookup H (s.writeBackAnswer H now k answerScoped).tab now' k = none ∧
+    retryKey H (s.writeBackAnswer H now k answerScoped).tab now' k = none ∧
+    (recordQuestion H s.cfg (s.writeBackAnswer H now k answerScoped).tab now' k p w).2.streak = 1 ∧
+    (recordQuestion H s.cfg (s.writeBackAnswer H now k answerScoped).tab now' k p w).2.retryAfter
+      = now' + (s.cfg.initial : Int) := by
+  have hd : (s.setFromResponse H now k.name k.qtype k.qclass k.cd answerScoped .useful).disabled = false := by
+    cases answerScoped <;> simp [Store.setFromResponse, Store.resetQuestionFailure, hen]
+  have htab : (s.writeBackAnswer H now k answerScoped).tab
+      = (resetMatching H (s.setFromResponse H now k.name k.qtype k.qclass k.cd answerScoped .useful).tab k).1 := by
+    simp [Store.writeBackAnswer, Store.resetMatchingFailures, hd]
+  rw [htab]
+  obtain ⟨h1, h2⟩ := success_resets H _ k hwf now'
+  obtain ⟨h3, h4⟩ := after_success_backoff_restarts H s.cfg _ k hwf now' p w
+  exact ⟨h1, h2, h3, h4⟩
+
 /-! ## request-local failures never become shared state -/
 
 /-- **Local causes are never shared (question state).** If the request was
